@@ -1,8 +1,138 @@
 package symex
 
-// BankModel is the contract model of the x/bank keeper used by x/burn (C07).
-type BankModel struct{}
+import (
+	"golang.org/x/tools/go/ssa"
+
+	"verif/engine/smt"
+)
+
+// BankModel is the contract model (BANK) of the x/bank keeper as used by
+// x/burn, written from cosmos-sdk v0.47.12 x/bank/keeper (subUnlockedCoins,
+// addCoins, SendCoinsFromAccountToModule, BurnCoins):
+//
+//   - balances are per (account, denom) totals with a locked (vesting) part;
+//     spendable = total - min(locked, total);
+//   - GetAllBalances returns the totals (locked coins included);
+//   - a multi-denom send debits the denoms in sorted order and returns on the
+//     first denom whose spendable balance is insufficient, leaving the earlier
+//     denoms debited; only after all debits the recipient is credited;
+//   - BurnCoins debits the module account and the supply.
+//
+// Two denominations (index 0 sorts before index 1), accounts: 0 = burn
+// address, 1 = burn module account. Amounts are 64-bit with a stated bound.
+type BankModel struct {
+	Total  [2][2]*smt.Term // [account][denom]
+	Locked [2]*smt.Term    // burn address only
+	Supply [2]*smt.Term
+	SendErrEnv *smt.Term
+}
+
+const bankBound = uint64(1) << 40
+
+type coinsVal struct {
+	Amt [2]*smt.Term
+}
+
+func (e *Exec) bank() *BankModel {
+	if e.path.bank == nil {
+		panic(engineErr("bank model used before vBankInit"))
+	}
+	return e.path.bank
+}
+
+func spendable(total, locked *smt.Term) *smt.Term {
+	return smt.Ite(smt.ULt(locked, total), smt.Sub(total, locked), c0)
+}
+
+func init() {
+	// vBankInit(): arbitrary bank state (symbolic totals, locked amounts, supply)
+	extraIntrinsics["vBankInit"] = func(e *Exec, fn *ssa.Function, args []Value) Value {
+		b := &BankModel{}
+		mk := func(site string) *smt.Term {
+			k := e.siteKey(site)
+			t := smt.Var("in:"+k, smt.BV64)
+			e.addSite(NondetSite{Key: k, Kind: "u64", Term: t})
+			e.assume(smt.ULe(t, smt.Const(bankBound, 64)))
+			return t
+		}
+		for d := 0; d < 2; d++ {
+			b.Total[0][d] = mk("burnTotal")
+			b.Locked[d] = mk("burnLocked")
+			b.Total[1][d] = mk("moduleTotal")
+			rest := mk("restOfSupply")
+			b.Supply[d] = smt.Add(smt.Add(b.Total[0][d], b.Total[1][d]), rest)
+		}
+		e.path.bank = b
+		e.Notes["BANK contract model: 2 denominations, burn address + burn module account, amounts <= 2^40; multi-denom sends debit in denom order and stop at the first insufficient spendable balance (cosmos-sdk v0.47.12 subUnlockedCoins)"] = true
+		return nil
+	}
+	get := func(name string, f func(b *BankModel, d int) *smt.Term) {
+		extraIntrinsics[name] = func(e *Exec, fn *ssa.Function, args []Value) Value {
+			d := e.mustConstInt(args[0], "denom index")
+			return f(e.bank(), d)
+		}
+	}
+	get("vBankBurnTotal", func(b *BankModel, d int) *smt.Term { return b.Total[0][d] })
+	get("vBankBurnSpendable", func(b *BankModel, d int) *smt.Term { return spendable(b.Total[0][d], b.Locked[d]) })
+	get("vBankModuleTotal", func(b *BankModel, d int) *smt.Term { return b.Total[1][d] })
+	get("vBankSupply", func(b *BankModel, d int) *smt.Term { return b.Supply[d] })
+	extraIntrinsics["vBankSupplyInvariantHolds"] = func(e *Exec, fn *ssa.Function, args []Value) Value {
+		// supply - (modelled balances) is the unmodelled remainder; it must not change:
+		// the harness compares before/after through vBankRest
+		return smt.True
+	}
+	get("vBankRest", func(b *BankModel, d int) *smt.Term {
+		return smt.Sub(b.Supply[d], smt.Add(b.Total[0][d], b.Total[1][d]))
+	})
+	stubs["(github.com/cosmos/cosmos-sdk/types.Coins).Empty"] = func(e *Exec, fn *ssa.Function, args []Value) Value {
+		c := args[0].(Opaque).Data.(*coinsVal)
+		return smt.And(smt.Eq(c.Amt[0], c0), smt.Eq(c.Amt[1], c0))
+	}
+	stubs["(github.com/cosmos/cosmos-sdk/types.Coins).String"] = func(e *Exec, fn *ssa.Function, args []Value) Value {
+		return e.opaqueString("coins")
+	}
+}
 
 func (e *Exec) bankMethod(o Opaque, method string, args []Value) Value {
+	b := e.bank()
+	e.StubsSeen["bank."+method] = true
+	switch method {
+	case "GetAllBalances":
+		return Opaque{Kind: "coins", Data: &coinsVal{Amt: [2]*smt.Term{b.Total[0][0], b.Total[0][1]}}}
+	case "SpendableCoins":
+		return Opaque{Kind: "coins", Data: &coinsVal{Amt: [2]*smt.Term{spendable(b.Total[0][0], b.Locked[0]), spendable(b.Total[0][1], b.Locked[1])}}}
+	case "SendCoinsFromAccountToModule":
+		amt := args[3].(Opaque).Data.(*coinsVal)
+		e.path.events = append(e.path.events, "bank.SendCoinsFromAccountToModule")
+		for d := 0; d < 2; d++ {
+			if !e.branch(smt.UGt(amt.Amt[d], c0)) {
+				continue
+			}
+			sp := spendable(b.Total[0][d], b.Locked[d])
+			if e.branch(smt.ULt(sp, amt.Amt[d])) {
+				return e.newErr("insufficient funds")
+			}
+			b.Total[0][d] = smt.Sub(b.Total[0][d], amt.Amt[d])
+		}
+		for d := 0; d < 2; d++ {
+			b.Total[1][d] = smt.Add(b.Total[1][d], amt.Amt[d])
+		}
+		return nilErr()
+	case "BurnCoins":
+		amt := args[2].(Opaque).Data.(*coinsVal)
+		e.path.events = append(e.path.events, "bank.BurnCoins")
+		for d := 0; d < 2; d++ {
+			if e.branch(smt.ULt(b.Total[1][d], amt.Amt[d])) {
+				return e.newErr("insufficient module funds")
+			}
+		}
+		for d := 0; d < 2; d++ {
+			b.Total[1][d] = smt.Sub(b.Total[1][d], amt.Amt[d])
+			b.Supply[d] = smt.Sub(b.Supply[d], amt.Amt[d])
+		}
+		return nilErr()
+	case "GetSupply":
+		return Opaque{Kind: "coin", Data: nil}
+	}
 	panic(engineErr("bank method %s not modelled", method))
 }
